@@ -147,6 +147,29 @@ def rand_elem(rng, a, style):
     return (v & ((1 << a.w) - 1)).to_bytes(a.es, 'little')
 
 
+def parse_real(v):
+    """SMT-LIB / z3 real literal -> Fraction: 3, -3, 1/2, 0.25, 1.5?, (/ 1.0 2.0), (- 5.0), (- (/ 1 3)); anything else (root objects) -> 0"""
+    import re
+    toks = re.findall(r'[()]|[^\s()]+', str(v).replace('?', ''))
+    pos = [0]
+    def rd():
+        t = toks[pos[0]]; pos[0] += 1
+        if t != '(': return Fraction(t)
+        op = toks[pos[0]]; pos[0] += 1; args = []
+        while toks[pos[0]] != ')': args.append(rd())
+        pos[0] += 1
+        if op == '-': return -args[0] if len(args) == 1 else args[0] - sum(args[1:])
+        if op == '/': return args[0] / args[1]
+        if op == '+': return sum(args)
+        if op == '*':
+            r = Fraction(1)
+            for a in args: r *= a
+            return r
+        raise ValueError(op)
+    try: return rd()
+    except Exception: return Fraction(0)
+
+
 def model_inputs(case, model, fill=0):
     """concrete input assignment from a solver model (missing vars -> fill)"""
     inp = {}
@@ -171,7 +194,7 @@ def model_inputs(case, model, fill=0):
                 continue
             if a.kind == 'f':
                 if isinstance(v, str):    # real-domain rational
-                    f = Fraction(v.rstrip('?')) if '/' in v or v.lstrip('-').replace('.', '').isdigit() else Fraction(0)
+                    f = parse_real(v)
                     bs += struct.pack('<f' if a.w == 32 else '<d', float(f))
                 else: bs += int(v).to_bytes(a.es, 'little')
             else: bs += (int(v) & ((1 << a.w) - 1)).to_bytes(a.es, 'little')
